@@ -22,7 +22,9 @@ ASSUMPTIONS = [
 ]
 SOURCE_FILES = ["barter/src/engine/state/asset/mod.rs", "barter/src/engine/state/instrument/data.rs", "barter/src/engine/state/order/mod.rs", "barter/src/engine/state/mod.rs",
                 "barter-execution/src/balance.rs", "barter-integration/src/snapshot.rs", "barter/src/statistic/summary/asset.rs", "barter-data/src/books/mod.rs",
-                "barter-data/src/subscription/book.rs", "barter-data/src/subscription/trade.rs", "barter-data/src/event.rs"]
+                "barter-data/src/subscription/book.rs", "barter-data/src/subscription/trade.rs", "barter-data/src/event.rs",
+                "barter-execution/src/order/mod.rs", "barter-execution/src/order/state.rs", "barter-execution/src/order/request.rs", "barter-execution/src/order/id.rs",
+                "barter-execution/src/error.rs", "barter-instrument/src/lib.rs"]
 
 
 def signature(ops, k, key, impl_line, spec_line):
@@ -36,32 +38,52 @@ def signature(ops, k, key, impl_line, spec_line):
         return None
     i, c = m.group(1), m.group(2)
     finished = False
+    delivered = []  # exchange timestamps delivered for this order so far (open reports and Cancelled reports)
+
+    def num(x):
+        try:
+            return int(x)
+        except ValueError:
+            return None
+
     for op in ops[: k + 1]:
         t = op.split()
         if not t:
             continue
-        if t[0] == "ordx" and len(t) >= 3 and t[1] == i and t[2] == c:
+        if t[0] == "ord" and len(t) >= 5 and t[1] == i and t[2] == c:
+            delivered.append(num(t[4]))
+        elif t[0] == "ordx" and len(t) >= 5 and t[1] == i and t[2] == c:
             finished = True
+            if t[3] == "Cancelled":
+                delivered.append(num(t[4]))
         elif t[0] == "acct":
             j = 1
             while j < len(t):
                 if t[j] == "B":
                     j += 5
                 elif t[j] == "O":
+                    if t[j + 1 : j + 3] == [i, c]:
+                        delivered.append(num(t[j + 4]))
                     j += 6
                 elif t[j] == "X":
                     if t[j + 1 : j + 3] == [i, c]:
                         finished = True
+                        if t[j + 3] == "Cancelled":
+                            delivered.append(num(t[j + 4]))
                     j += 5
                 else:
                     break
     held = impl_line.split()[1:] not in ([], ["none"]) and impl_line != "<missing>" and impl_line != "panic"
-    if finished and held:
+    # the known finding: a FINISHED order is held again with details whose timestamp is not the greatest delivered
+    hm = re.search(r"[OC]\((\d+),(-?\d+),", impl_line)
+    held_t = int(hm.group(2)) if hm else None
+    older = held_t is not None and any(d is not None and d > held_t for d in delivered)
+    if finished and held and (older or held_t is None):
         return "clause=ord_resurrected"
     return "clause=ord_details"
 
 
-PREBUILD = [["python3", "tools/rust2lean_sm.py", "--require", "drawdown,pnl_returns,registers"]]
+PREBUILD = [["python3", "tools/rust2lean_sm.py", "--require", "drawdown,pnl_returns,registers,orders"]]
 CLAIM = True
 TECHNIQUE = "Lean 4: generic guarded-register lemma (fold of guarded updates holds a delivered message of maximal timestamp) by induction over delivery lists, permutation invariance via List.Perm, instantiated for balances / last trade / L1 / open orders (through the C01 refinement); correspondence through EngineState entry points"
 LEVEL_TEXT = ("Proof. lean/BarterModel/Props/C09.lean: for every finite delivery list (any order, any repetition) the register holds a message that was delivered and whose timestamp is the "
@@ -71,4 +93,5 @@ LEVEL_TEXT = ("Proof. lean/BarterModel/Props/C09.lean: for every finite delivery
               "(open_reports_register). Unbounded in the number of messages; the suite tests four hand-picked balance cases.")
 LEVEL_NOTE = ("Trusted: Lean kernel; axioms propext/Classical.choice/Quot.sound; hand-written register model tied to the code by sampled correspondence (400 quick / 20k random + "
               "4x9330 exhaustive thorough). Hypotheses: L1 payload time = event time; finite prices; times after the epoch. "
-              "Additionally tied by translation: AssetState::update_from_balance and DefaultInstrumentMarketData::{price, process} (with the structs and helpers they use) are regenerated from the current source on every run by tools/rust2lean_sm.py (Generated/Machines2.lean) and proved equal to the register model for all states and messages (state_machine_agrees_with_source; Decimal::from_f64 stays an arbitrary parameter, the L1 arm carries the epoch precondition, the open-order guards of order/mod.rs are not translated); the translator and its prelude are trusted for that tie.")
+              "Additionally tied by translation: AssetState::update_from_balance and DefaultInstrumentMarketData::{price, process} (with the structs and helpers they use) are regenerated from the current source on every run by tools/rust2lean_sm.py (Generated/Machines2.lean) and proved equal to the register model for all states and messages (state_machine_agrees_with_source; Decimal::from_f64 stays an arbitrary parameter, the L1 arm carries the epoch precondition); the translator and its prelude are trusted for that tie. "
+              "The open-order guards of order/mod.rs are tied by translation too: the four entry points of Orders are regenerated (Generated/Machines3.lean, group orders; the FnvHashMap and its Entry API read through the translator's explicit map vocabulary) and proved equal to the Orders model for all tables and inputs (map_machine_agrees_with_source).")
